@@ -452,7 +452,11 @@ def qr_move_scp(asce, ctx, msg):
     rsp = dimsemessages.CMoveRSPMessage()
     rsp.message_id_being_responded_to = msg.message_id
     rsp.sop_class_uid = msg.sop_class_uid
-    remote_ae, nop, gen = asce.ae.on_receive_move(ctx, ds, msg.move_destination)
+    try:
+        remote_ae, nop, gen = asce.ae.on_receive_move(ctx, ds, msg.move_destination)
+    except exceptions.EventHandlingError:
+        _send_response(asce, ctx, msg, 0, 0, 0, 0, statuses.C_MOVE_UNABLE_TO_PROCESS)
+        return
     if not nop:
         # nothing to move
         _send_response(asce, ctx, msg, 0, 0, 0, 0)
@@ -482,7 +486,7 @@ def qr_move_scp(asce, ctx, msg):
         _send_response(asce, ctx, msg, nop, failed, warning, completed)
 
 
-def _send_response(asce, ctx, msg, nop, failed, warning, completed):
+def _send_response(asce, ctx, msg, nop, failed, warning, completed, status=statuses.SUCCESS):
     rsp = dimsemessages.CMoveRSPMessage()
     rsp.message_id_being_responded_to = msg.message_id
     rsp.sop_class_uid = msg.sop_class_uid
@@ -490,7 +494,7 @@ def _send_response(asce, ctx, msg, nop, failed, warning, completed):
     rsp.num_of_completed_sub_ops = completed
     rsp.num_of_failed_sub_ops = failed
     rsp.num_of_warning_sub_ops = warning
-    rsp.status = int(statuses.SUCCESS)
+    rsp.status = int(status)
     asce.send(rsp, ctx.id)
 
 
